@@ -15,11 +15,30 @@
   * ring identities: `c09_trideig_step`, `c09_trideig_step_GtTG`, `c09_trideig_step_Q`, `c09_rot_orth`,
     `c09_householder_apply_left/right`, `c09_householder_kernel`, `c09_wilkinson_shift`;
   * translator tie: `c09_wilkinson_gen` (hand model prologue = `Gen.Wilk.wilkinson_mu`, regenerated from the header every run).
-  Not attempted: `c09_trideig_decomp` (T₀Z = Z diag(d) + Δ as a whole-run statement) and `c09_schur_similarity` (U T Uᵀ invariant over
-  the whole Francis sweep); the per-step identities above are their building blocks.
+  * whole-run similarity of `TridiagEigen::compute` in exact arithmetic (field instance, exact `sqrt`, all `n`, all inputs, every
+    outcome of every comparison): `c09_trideig_decomp` / `c09_trideig_decomp_matrix`: `(T₀ − P) Z = Z diag(evals)` with `ZᵀZ = ZZᵀ = I`,
+    `P` symmetric and `|Pᵢⱼ| ≤ 2·totalDrop` where `totalDrop` = `scale ·` Σ over all deflation passes of the magnitudes of the
+    sub-diagonal entries the pass overwrote (`c09_trideig_deflate`: each was replaced by exactly `0` after passing the code's
+    negligibility test on its current value); building blocks `c09_givens_annihilate`, `c09_trideig_qrstep_similarity` (one
+    `tridiagonal_qr_step` is an orthogonal similarity that loses NO entry); corollaries `c09_trideig_exact` (`T₀ Z = Z D` exactly when
+    the budget is `0`) and `c09_trideig_eigH_spec` (the `eig_spec` obligation of `C01E.ExactKernels` for `HermSolver.eigH`).
+  * UpperHessenbergSchur, exact-arithmetic building blocks of the `U T Uᵀ` invariant (`c09_schur_similarity_partial_*`): the ideal
+    reflector maps its defining vector to `β e₁` exactly (`c09_schur_similarity_partial_reflect`: the bulge entries zeroed by the
+    clean-up loop are exact zeros), the standardisation rotation of `split_off_two_rows` annihilates `T(iu,iu−1)` exactly
+    (`c09_schur_similarity_partial_standardise`: the explicit `= 0` overwrites an exact zero), and the exceptional shifts keep
+    `T + ex_shift·I_{0..iu}` entrywise (`c09_schur_similarity_partial_shift`).
+  NOT proved: the whole-run `c09_schur_similarity` (`U T Uᵀ = H − P`).  Missing: (i) the window argument — the left/right
+  applications restricted to columns `≥ k` / rows `≤ min(iu,k+3)` equal the full products given the Hessenberg zero pattern;
+  (ii) three further perturbation sources that are NOT explicit zeroings and make the similarity inexact EVEN IN EXACT ARITHMETIC:
+  the negligible `T(il, il−1)` stays stored and column `il−1` is not transformed by the sweep, a sweep started at `im > il` only
+  negates `T(im, im−1)` (Wilkinson's two-small-subdiagonals approximation), and `makeHouseholder`'s degenerate exit drops a tail
+  with `t1² + t2² ≤ min`.  A whole-run statement therefore needs a `P` that collects these as well (same treatment as
+  `c09_trideig_decomp`); it is not attempted here.
 
   NOT proved (stated at full strength here, out of reach of this method — rounding and convergence):
-    "T Z = Z diag(d), ZᵀZ = I, U T Uᵀ = H, ‖Hx − λx‖ small, all within a modest multiple of n·eps·norm" and
+    "T Z = Z diag(d), ZᵀZ = I, U T Uᵀ = H, ‖Hx − λx‖ small, all within a modest multiple of n·eps·norm" IN FLOATING POINT
+    (the exact-arithmetic statement above bounds the defect of `T Z = Z D` by the dropped entries only; that the dropped entries
+    are `O(eps·‖T‖)` and that rounding adds `O(n·eps·‖T‖)` is not proved) and
     "the QR iterations converge within the iteration limit".
   These clauses are checked only by the long-double oracle of `harness/c09.cpp` on the real classes.
 -/
@@ -31,6 +50,8 @@ import SpectraVerif.Proofs.C09Orth
 import SpectraVerif.Proofs.C09Hess
 import SpectraVerif.Proofs.C09Cdiv
 import SpectraVerif.Proofs.C09OrthU
+import SpectraVerif.Proofs.C09SimEig
+import SpectraVerif.Proofs.C09SimU
 import SpectraVerif.Gen.Wilk
 
 namespace C09
@@ -377,6 +398,155 @@ theorem c09_schur_orth (hs : ∀ x : K, 0 ≤ x → F.sqrt x * F.sqrt x = x) (hs
     (fun c0 t1 t2 => C09OrthU.makeHouseholder_ideal F hs hs0 hmin c0 t1 t2) n h r hok
 
 end step
+
+section similarity
+variable {K : Type} [Field K] [LinearOrder K] [IsStrictOrderedRing K] (F : FieldFns K)
+open TridiagEigen Finset
+open scoped Matrix
+
+/-- `makeGivens(p, q)` annihilates: `s·p + c·q = 0` in all four branches (field instance, ANY `sqrt`): the bulge entry
+    `(m+2, m) = s·e_m + c·z` of `c09_trideig_step_GtTG`, which the code does not store, is exactly `0`. -/
+theorem c09_givens_annihilate (p q : K) :
+    let _ : Sc K := scOfField F
+    (makeGivens p q).s * p + (makeGivens p q).c * q = 0 := C09Sim.makeGivens_annih F p q
+
+/-- **One `tridiagonal_qr_step` is an orthogonal similarity that loses no entry** (exact arithmetic, exact `sqrt`).  `TInv F n X d s q`
+    says: `d`, `s` have sizes `n`, `n−1`, `q` is a well-formed `n × n` matrix with orthonormal columns and
+    `Qᵀ X Q = tridiag(d, s)` (Mathlib matrices, `C09Sim.mat n` = leading `n × n` block of an entry function).  If the window
+    `[start, end]` is decoupled (`sub[start−1] = 0` unless `start = 0`, `sub[end] = 0`) the same holds after the step: each rotation's
+    bulge is annihilated exactly by the next one (`c09_givens_annihilate`) and the last rotation creates none. -/
+theorem c09_trideig_qrstep_similarity (hs : ∀ x : K, 0 ≤ x → F.sqrt x * F.sqrt x = x) (n start end_ : Nat)
+    (X : Matrix (Fin n) (Fin n) K) (d s : Vec K) (q : Mat K) (h : C09Sim.TInv F n X d s q) (hse : start ≤ end_) (hend : end_ < n)
+    (e1 : ∀ m, m + 1 = start → @vget K (scOfField F) s m = 0) (e2 : @vget K (scOfField F) s end_ = 0) :
+    C09Sim.TInv F n X (@qrStep K _ _ _ _ _ (scOfField F) n start end_ d s q).diag
+      (@qrStep K _ _ _ _ _ (scOfField F) n start end_ d s q).sub (@qrStep K _ _ _ _ _ (scOfField F) n start end_ d s q).q :=
+  C09Sim.qrStep_sim F (fun p q => C09Orth.makeGivens_unit F hs p q) n start end_ X d s q h hse hend e1 e2
+
+/-- **What a deflation pass drops** (field instance): every sub-diagonal entry is either unchanged or replaced by exactly `0`, and in
+    the latter case its CURRENT value passed the code's test `|eⱼ| ≤ considerAsZero ∨ (precision_inv·eⱼ)² ≤ |dⱼ| + |dⱼ₊₁|`. -/
+theorem c09_trideig_deflate (caz pinv : K) (start end_ : Nat) (d s : Vec K) (hsz : end_ ≤ s.size) (j : Nat) :
+    let _ : Sc K := scOfField F
+    vget (deflatePass caz pinv start end_ d s) j = vget s j ∨
+      (vget (deflatePass caz pinv start end_ d s) j = 0 ∧ start ≤ j ∧ j < end_ ∧
+        (|vget s j| ≤ caz ∨ (pinv * vget s j) * (pinv * vget s j) ≤ |vget d j| + |vget d (j + 1)|)) :=
+  C09Sim.deflatePass_cases F caz pinv start end_ d s hsz j
+
+/-- **`c09_trideig_decomp`: whole-run decomposition of `TridiagEigen::compute` in exact arithmetic** (field instance, exact `sqrt`,
+    `min > 0`), for every `n ≥ 1`, every input `(d, e)` of the right sizes and EVERY outcome of the deflation / shift / loop tests.
+    If the model returns normally with eigenvalues `λ` and eigenvectors `Z` then there is a SYMMETRIC perturbation `P` with
+      `(T₀ − P) Z = Z diag(λ)`   (both orders of the right-hand product are given),
+    `T₀ = tridiag(d, e)`, and `|Pᵢⱼ| ≤ 2 · totalDrop` where `C09Sim.totalDrop` is the run's perturbation budget: `scale ·` the sum, over
+    all deflation passes of the run, of `Σₖ |old subₖ − new subₖ|` (ghost recursion `C09Sim.mainLoopDrop` mirroring the main loop; by
+    `c09_trideig_deflate` each non-zero term is the magnitude of an entry that passed the negligibility test when it was dropped);
+    in the tiny-matrix early exit (`scale < 10·min`, result `λ = 0`, `Z = I`) the budget is `Σ|dₖ| + Σ|eₖ|`.
+    Together with `c09_trideig_orth` (`ZᵀZ = I`) this is `T₀ = Z D Zᵀ + P`: the columns of `Z` are EXACT orthonormal eigenvectors of
+    a matrix within `2·totalDrop` (entrywise) of the input.  Not proved: that `totalDrop = O(eps·‖T₀‖)`, and rounding. -/
+theorem c09_trideig_decomp (hs : ∀ x : K, 0 ≤ x → F.sqrt x * F.sqrt x = x) (hmin : 0 < F.minPos) (n : Nat) (hn : 0 < n)
+    (d e : Vec K) (hd : d.size = n) (he : e.size = n - 1) (r : TridiagEigen.Decomp K)
+    (hok : @TridiagEigen.compute K _ _ _ _ _ (scOfField F) n d e = Res.ok r) :
+    let _ : Sc K := scOfField F
+    ∃ P : ℕ → ℕ → K, (∀ i j, P i j = P j i) ∧ (∀ i j, i < n → j < n → |P i j| ≤ 2 * C09Sim.totalDrop F n d e) ∧
+      (∀ i j, i < n → j < n →
+        ∑ a ∈ range n, (C09Sim.tridiag (vget d) (vget e) i a - P i a) * r.evecs.get a j = r.evecs.get i j * vget r.evals j) ∧
+      (∀ i j, i < n → j < n →
+        ∑ a ∈ range n, (C09Sim.tridiag (vget d) (vget e) i a - P i a) * r.evecs.get a j = vget r.evals j * r.evecs.get i j) :=
+  C09Sim.compute_decomp F (fun p q => C09Orth.makeGivens_unit F hs p q) hmin n hn d e hd he r hok
+
+/-- the same as Mathlib matrices, with both orthogonality statements: `(T₀ − P) Z = Z D`, `ZᵀZ = 1`, `ZZᵀ = 1`, `Pᵀ = P` -/
+theorem c09_trideig_decomp_matrix (hs : ∀ x : K, 0 ≤ x → F.sqrt x * F.sqrt x = x) (hmin : 0 < F.minPos) (n : Nat) (hn : 0 < n)
+    (d e : Vec K) (hd : d.size = n) (he : e.size = n - 1) (r : TridiagEigen.Decomp K)
+    (hok : @TridiagEigen.compute K _ _ _ _ _ (scOfField F) n d e = Res.ok r) :
+    ∃ P : Matrix (Fin n) (Fin n) K, Pᵀ = P ∧ (∀ i j, |P i j| ≤ 2 * C09Sim.totalDrop F n d e) ∧
+      (C09Sim.mat n (C09Sim.band (@vget K (scOfField F) d) (@vget K (scOfField F) e) 0 0) - P) *
+          C09Sim.mat n (fun i j => @Mat.get K (scOfField F) r.evecs i j) =
+        C09Sim.mat n (fun i j => @Mat.get K (scOfField F) r.evecs i j) *
+          Matrix.diagonal (fun i : Fin n => @vget K (scOfField F) r.evals i.val) ∧
+      (C09Sim.mat n (fun i j => @Mat.get K (scOfField F) r.evecs i j))ᵀ * C09Sim.mat n (fun i j => @Mat.get K (scOfField F) r.evecs i j) = 1 ∧
+      C09Sim.mat n (fun i j => @Mat.get K (scOfField F) r.evecs i j) * (C09Sim.mat n (fun i j => @Mat.get K (scOfField F) r.evecs i j))ᵀ = 1 :=
+  C09Sim.compute_sim F (fun p q => C09Orth.makeGivens_unit F hs p q) hmin n hn d e hd he r hok
+
+/-- the perturbation budget is a sum of magnitudes -/
+theorem c09_trideig_drop_nonneg (n : Nat) (caz pinv : K) (f end_ start iter : Nat) (d s : Vec K) (q : Mat K) :
+    0 ≤ C09Sim.mainLoopDrop F n caz pinv f end_ start iter d s q := C09Sim.mainLoopDrop_nonneg F n caz pinv f end_ start iter d s q
+
+/-- **exact corollary**: when the budget is `0` (every deflation only overwrote entries that already were `0`, and the tiny-matrix
+    exit was not taken on a non-zero input) `T₀ Z = Z D` EXACTLY: column `j` of `Z` is an eigenvector of `T₀` for `λⱼ`. -/
+theorem c09_trideig_exact (hs : ∀ x : K, 0 ≤ x → F.sqrt x * F.sqrt x = x) (hmin : 0 < F.minPos) (n : Nat) (hn : 0 < n)
+    (d e : Vec K) (hd : d.size = n) (he : e.size = n - 1) (r : TridiagEigen.Decomp K)
+    (hok : @TridiagEigen.compute K _ _ _ _ _ (scOfField F) n d e = Res.ok r) (h0 : C09Sim.totalDrop F n d e = 0) :
+    let _ : Sc K := scOfField F
+    ∀ i j, i < n → j < n →
+      ∑ a ∈ range n, C09Sim.tridiag (vget d) (vget e) i a * r.evecs.get a j = vget r.evals j * r.evecs.get i j :=
+  C09Sim.compute_exact F (fun p q => C09Orth.makeGivens_unit F hs p q) hmin n hn d e hd he r hok h0
+
+/-- the zero-budget hypothesis of `c09_trideig_exact` is satisfiable: for `n = 1` (no sub-diagonal) the budget is `0` whenever the
+    tiny-matrix exit is not taken -/
+example (d e : Vec K)
+    (h : @Sc.lt K (scOfField F) (@TridiagEigen.scaleOf K (scOfField F) d e) (@Sc.minPos K (scOfField F) * @Sc.ofInt K (scOfField F) 10) = false) :
+    C09Sim.totalDrop F 1 d e = 0 := by
+  simp only [C09Sim.totalDrop, h, C09Sim.coreDrop]
+  simp [C09Sim.mainLoopDrop]
+
+/-- **the `eig_spec` obligation of `C01E.ExactKernels` (Proofs/C01Exact.lean) discharged for `HermSolver.eigH`** under the exact
+    idealisation (exact `sqrt`, zero perturbation budget): for every returned column `y = cols[j]`, `H y = θ y` with `H` the symmetric
+    tridiagonal matrix read from the factorization (`H(i,i)`, `H(i+1,i)`), `θ = evals[j]`, and `lastRow[j]` is the last coordinate of
+    `y` — with `vec y a := vget y a`, `val := id`, `est := id`, `(abs fac).H := tridiag …` this is the field `eig_spec` verbatim. -/
+theorem c09_trideig_eigH_spec (hs : ∀ x : K, 0 ≤ x → F.sqrt x * F.sqrt x = x) (hmin : 0 < F.minPos) (ncv : Nat) (hn : 0 < ncv)
+    (st : Arnoldi.State K) (evals lastRow : List K) (cols : List (Vec K))
+    (h : @HermSolver.eigH K _ _ _ _ _ (scOfField F) ncv st = .ok (evals, lastRow, cols))
+    (h0 : C09Sim.totalDrop F ncv (vofFn ncv (fun i => @Mat.get K (scOfField F) st.H i i))
+      (vofFn (ncv - 1) (fun i => @Mat.get K (scOfField F) st.H (i + 1) i)) = 0) :
+    let _ : Sc K := scOfField F
+    ∀ j, j < ncv →
+      (∀ i, i < ncv → ∑ a ∈ range ncv, C09Sim.tridiag (fun i => st.H.get i i) (fun i => st.H.get (i + 1) i) i a *
+            vget (cols.getD j (vzero ncv)) a = evals.getD j zero * vget (cols.getD j (vzero ncv)) i) ∧
+      lastRow.getD j zero = vget (cols.getD j (vzero ncv)) (ncv - 1) :=
+  C09Sim.eigH_spec F (fun p q => C09Orth.makeGivens_unit F hs p q) hmin ncv hn st evals lastRow cols h h0
+
+end similarity
+
+section schur_similarity
+variable {K : Type} [Field K] [LinearOrder K] [IsStrictOrderedRing K] (F : FieldFns K)
+open HessSchur
+
+/-- **`c09_schur_similarity`, partial (1/3): an ideal reflector reflects.**  With an exact non-negative `sqrt`, either
+    `makeHouseholder(c0, t1, t2)` took its degenerate exit (`t1² + t2² ≤ min`: `τ = 0`, `β = c0`, the tail is treated as `0` — a
+    dropped quantity), or `P (c0, t1, t2)ᵀ = (β, 0, 0)ᵀ` EXACTLY for `P = I − τ v vᵀ`: after `T(k, k−1) = β` the two entries below it,
+    which `perform_francis_qr_step` leaves in place and zeroes in its clean-up loop, are exact zeros of `Pᵀ T P`.
+    (The whole-run `U T Uᵀ` statement is NOT proved: see the header.) -/
+theorem c09_schur_similarity_partial_reflect (hs : ∀ x : K, 0 ≤ x → F.sqrt x * F.sqrt x = x) (hs0 : ∀ x : K, 0 ≤ F.sqrt x)
+    (hmin : 0 ≤ F.minPos) (c0 t1 t2 : K) :
+    let _ : Sc K := scOfField F
+    (t1 * t1 + t2 * t2 ≤ F.minPos ∧ (makeHouseholder c0 t1 t2).tau = 0 ∧ (makeHouseholder c0 t1 t2).beta = c0) ∨
+    hhKernel (makeHouseholder c0 t1 t2).v1 (makeHouseholder c0 t1 t2).v2 (makeHouseholder c0 t1 t2).tau c0 t1 t2 =
+      ((makeHouseholder c0 t1 t2).beta, 0, 0) := C09SimU.makeHouseholder_reflects F hs hs0 hmin c0 t1 t2
+
+/-- **partial (2/3): the standardisation rotation of `split_off_two_rows` annihilates `T(iu, iu−1)` exactly.**  For the trailing
+    2x2 block `[[a, b], [y, d]]` with `p = (a − d)/2`, `q = p² + y·b ≥ 0`, the rotation `makeGivens(p ± √|q|, y)` applied as the code
+    applies it (`applyOnTheLeft(adjoint)` on the rows, `applyOnTheRight` on the columns) produces the `(2,1)` entry
+    `c·(s·a + c·y) − s·(s·b + c·d) = 0`: the explicit `T(iu, iu−1) = 0` overwrites an exact zero. -/
+theorem c09_schur_similarity_partial_standardise (hs : ∀ x : K, 0 ≤ x → F.sqrt x * F.sqrt x = x) (hs0 : ∀ x : K, 0 ≤ F.sqrt x)
+    (a b y d : K) (hq : 0 ≤ (1 / 2 * (a - d)) * (1 / 2 * (a - d)) + y * b) :
+    let _ : Sc K := scOfField F
+    let p : K := 1 / 2 * (a - d)
+    let z := F.sqrt |p * p + y * b|
+    let rot := makeGivens (if 0 ≤ p then p + z else p - z) y
+    rot.c * (rot.s * a + rot.c * y) - rot.s * (rot.s * b + rot.c * d) = 0 := C09SimU.standardise_zero F hs hs0 a b y d hq
+
+/-- `RealScalar(0.5)` of the model is `1/2` in the field instance (ties `p` above to the model's `half * (…)`) -/
+theorem c09_half (F : FieldFns K) : (@TridiagEigen.half K (scOfField F)) = 1 / 2 := C09SimU.half_eq F
+
+/-- **partial (3/3): the exceptional shifts are consistent.**  `compute_shift(iu, iter, ex_shift)` returns `(T', ex')` with
+    `T' + ex'·D = T + ex·D` ENTRYWISE, `D` = identity on the active rows `0..iu`, whichever exceptional shift (iteration 10, 30)
+    fired: what is subtracted from the diagonal of the active window is added to `ex_shift` (and added back by the deflation
+    branches `T(iu,iu) += ex_shift`). -/
+theorem c09_schur_similarity_partial_shift (t : Mat K) (h : @C09Mat.WF K t) (iu iter : Nat) (ex : K) (hr : iu < t.rows) (hc : iu < t.cols) :
+    let _ : Sc K := scOfField F
+    ∀ i j, i < t.rows →
+      (computeShift iu iter ex t).1.get i j + (if i = j ∧ i ≤ iu then (computeShift iu iter ex t).2.1 else 0) =
+        t.get i j + (if i = j ∧ i ≤ iu then ex else 0) := (C09SimU.computeShift_shifted F t h iu iter ex hr hc).2.2.2
+
+end schur_similarity
 
 section householder
 variable {R : Type} [CommRing R] [Div R] [Sc R]
